@@ -217,7 +217,7 @@ def train_on_policy(
                 dones = []
                 values = []
 
-                done = np.zeros(num_envs)
+                done = np.zeros(num_envs) if is_vectorised else np.int8(0)
                 for idx_step in range(-(agent.learn_step // -num_envs)):
 
                     if swap_channels:
